@@ -105,6 +105,42 @@ func Yield(desc string, enabled func() bool) {
 	}
 }
 
+// Go starts body as a new cooperating thread of the active run (the rewrite kind `vgo`
+// turns `go f(x)` of a package into vsched.Go(func() { f(x) })). Outside a run it is a
+// plain goroutine. Spawning is a scheduling point.
+func Go(body func()) {
+	s := active
+	if s == nil || s.abort {
+		go body()
+		return
+	}
+	t := &thread{id: len(s.threads), wake: make(chan struct{}), desc: "start"}
+	s.threads = append(s.threads, t)
+	go func() {
+		defer func() {
+			if r := recover(); r != nil {
+				t.panicv = fmt.Sprint(r)
+			}
+			t.done = true
+			s.back <- struct{}{}
+		}()
+		<-t.wake
+		if s.abort {
+			return
+		}
+		body()
+	}()
+	Yield("spawn", nil)
+}
+
+// Recv is `<-ch` as a cooperative blocking operation: the thread is enabled when the
+// channel holds a value (the rewritten packages only use buffered result channels that are
+// written once, so sends never block).
+func Recv[T any](ch chan T) T {
+	Yield("recv", func() bool { return len(ch) > 0 })
+	return <-ch
+}
+
 // Run executes bodies as cooperating threads under the schedule prefix.
 // A prefix entry that is out of range for the enabled set at its point panics
 // (the explorer never produces one; it would mean the code is not deterministic
